@@ -38,8 +38,6 @@ def tp_case(text_units, train_units, ti, di, family):
     def classes(out):
         cl = set()
         n = sum(len(u) for u in text_units) + max(0, len(text_units) - 1)
-        if any('UB' in ''.join(u) for u in text_units):
-            cl.add('ub_marker_in_utterance')
         if n == 0:
             cl.add('empty_text')
         return cl
